@@ -53,7 +53,11 @@ VARIANTS = {
     7: 'extension / group member names that need shell quoting',
     8: 'input group whose two members have the same basename',
     9: 'a reference immediately followed by a digit',
+    10: 'external outputs of resource groups are written member by member (write_output(j.g.a, ...))',
+    11: 'input file A is a local file (uploaded by the client before submission, downloaded by the job)',
 }
+LOCAL_A = '/data/local/x.txt'
+
 URL_A = 'gs://data/a/x.txt'
 URL_B = 'gs://data/b/x.txt'
 URL_GA = 'gs://data/g/x.a'
@@ -95,9 +99,12 @@ async def _no_validate(uri, fs):
     return None
 
 
-async def _no_copy(files=None, **kw):
-    if files:
-        raise HarnessError('C18 harness: local input files are outside the explored shapes')
+_CLIENT_UPLOADS = []
+
+
+async def _record_copy(files=None, **kw):
+    """Stands in for hailtop.aiotools.copy.copy_from_dict: the client-side upload of local input files."""
+    _CLIENT_UPLOADS.extend(dict(f) for f in (files or []))
 
 
 class _Resp:
@@ -138,7 +145,7 @@ def setup():
     hb_backend.validate_file = _no_validate
     hb_backend.track = lambda seq, **kw: seq
     hb_backend.SimpleCopyToolProgressBar = _NullBar
-    hb_backend.copy_from_dict = _no_copy
+    hb_backend.copy_from_dict = _record_copy
     aioclient.BatchProgressBar = _NullBar
     with warnings.catch_warnings():
         warnings.simplefilter('ignore')
@@ -227,6 +234,130 @@ class Tmpl:
         return ''.join(s[1] if s[0] == 'lit' else s[2] for s in self.segs)
 
 
+def _build(N, inp, var, obs, st, sb, fc):
+    noise = var == 4
+    ext = ".e x'y" if var == 7 else '.e'
+    ma, mb = ("a c", "b'd") if var == 7 else ('a', 'b')
+    b = hb.Batch(backend=sb, name='c18')
+    url_a = LOCAL_A if var == 11 else URL_A
+    inA = b.read_input(url_a)
+    inB = b.read_input(URL_B)
+    url_gb = 'gs://data/h/x.a' if var == 8 else URL_GB
+    ig = b.read_input_group(a=URL_GA, b=url_gb)
+    cloud = st['cloud']
+    cloud.update({u: 'cloud:' + u for u in (URL_B, URL_GA, url_gb)})
+    tok_a = ('local:' if var == 11 else 'cloud:') + url_a
+    if var != 11:
+        cloud[url_a] = tok_a
+    names = [('a b' if var == 2 else (None if var == 3 else f'j{j}')) for j in range(N)]
+    order = list(range(N - 1, -1, -1)) if var == 1 else list(range(N))
+    jobs = {}
+    for j in order:
+        jobs[j] = b.new_job(name=names[j])
+    kinds, mentions = {}, []
+    templates, pairs, expect_ext = st['templates'], st['pairs'], st['expect_ext']
+    for j in range(N):
+        job = jobs[j]
+        ok = inp.out(j)
+        kinds[j] = ok
+        rd = [inp.read(j, False), inp.read(j, True)]
+        xj = inp.ext(j)
+        obs['shape'][f'o_{j}'] = ok
+        obs['shape'][f'r_{j}'] = rd
+        obs['shape'][f'x_{j}'] = xj
+        # shapes that do not denote a pipeline (reading an output the producer does not have) are not inputs
+        for kind, i in rd:
+            if kind == 'job' and kinds[i] == 0 or kind == 'jobm' and kinds[i] not in (3, 4, 6):
+                obs['skip'] = f'job {j} cannot read {kind} of job {i} (producer kind {kinds[i]})'
+                return
+        if xj and ok == 0:
+            obs['skip'] = f'job {j} has no output to write out'
+            return
+        if rd[1][0] != 'none' and rd[1] == rd[0]:
+            obs['skip'] = 'second read equals the first'
+            return
+        pre = '--in=' if noise else ''
+        t1 = Tmpl().lit(f': job{j}')
+        for kind, i in rd:
+            if kind == 'none':
+                continue
+            q = ''
+            if kind == 'inA':
+                op, key, res, tail = f'R {pre}', ('in', 'A'), inA, f' {tok_a}'
+            elif kind == 'inB':
+                op, key, res, tail = f'R {pre}', ('in', 'B'), inB, f' {cloud[URL_B]}'
+            elif kind == 'ig':
+                op, key, res, tail = 'RG ', ('ig',), ig, f' a={cloud[URL_GA]} b={cloud[url_gb]}'
+            elif kind == 'igm':
+                op, key, res, tail = 'R ', ('ig', 'a'), ig.a, f' {cloud[URL_GA]}'
+            else:
+                pj, pk = jobs[i], kinds[i]
+                pairs.append((j, i))
+                if kind == 'jobm':
+                    op, key, res, tail = f'R {pre}', ('out', i, 'g', 'a'), pj.g[ma], f' tok{i}.a'
+                elif pk in (1, 2, 5):
+                    op, key, res, tail = f'R {pre}', ('out', i, 'o'), pj.o, f' tok{i}'
+                    if noise:
+                        op, q = 'R ', '"'
+                else:
+                    op, key, res = 'RG ', ('out', i, 'g'), pj.g
+                    tail = f' {shlex.quote(ma)}=tok{i}.a {shlex.quote(mb)}=tok{i}.b'
+            t1.lit(f'\n{NOISE}\n' if noise else '; ')
+            t1.lit(op + q).ref(key, res).lit(q + tail)
+            if var == 9:
+                # the same reference immediately followed by a digit, e.g. f'{j.ofile}0' as a sibling file name
+                t1.lit('; : ').ref(None, res).lit('0')
+        t2 = Tmpl()
+        if ok in (1, 2, 5):
+            if ok == 2:
+                job.o.add_extension(ext)
+            t2.lit(f'W {pre.replace("in", "out")}').ref(('out', j, 'o'), job.o).lit(f' tok{j}')
+        elif ok in (3, 4, 6):
+            job.declare_resource_group(g={ma: '{root}.' + ma, mb: '{root}.' + mb})
+            if ok == 4:
+                t2.lit('W ').ref(('out', j, 'g', 'a'), job.g[ma]).lit(f' tok{j}.a; W ')
+                t2.ref(('out', j, 'g', 'b'), job.g[mb]).lit(f' tok{j}.b')
+            else:
+                t2.lit('WG ').ref(('out', j, 'g'), job.g).lit(f' {shlex.quote(ma)}=tok{j}.a {shlex.quote(mb)}=tok{j}.b')
+            if ok == 6:
+                t2.lit('; W ').ref(('out', j, 'g.a-file'), job['g.' + ma]).lit(f' tok{j}.other')
+        templates[j] = []
+        for t in (t1, t2):
+            if t.segs:
+                # leading/trailing white space: the backend strips commands, the oracle allows exactly that
+                txt = ('  ' + t.text() + ' \n') if noise else t.text()
+                try:
+                    job.command(txt)
+                except BatchException as e:
+                    obs['exc'] = ('BatchException', str(e))
+                    obs['exc_at'] = j
+                    return
+                templates[j].append(t.segs)
+                mentions += [s[1] for s in t.segs if s[0] == 'ref']
+        if ok == 5:
+            job.o.add_extension(ext)
+        if xj:
+            if ok in (1, 2, 5):
+                b.write_output(job.o, f'gs://out/j{j}.txt')
+                expect_ext[f'gs://out/j{j}.txt'] = f'tok{j}'
+            elif var == 10:
+                b.write_output(job.g[ma], f'gs://out/j{j}-a')
+                b.write_output(job.g[mb], f'gs://out/j{j}-b')
+                expect_ext[f'gs://out/j{j}-a'] = f'tok{j}.a'
+                expect_ext[f'gs://out/j{j}-b'] = f'tok{j}.b'
+            else:
+                b.write_output(job.g, f'gs://out/j{j}')
+                expect_ext[f'gs://out/j{j}.{ma}'] = f'tok{j}.a'
+                expect_ext[f'gs://out/j{j}.{mb}'] = f'tok{j}.b'
+    if var == 5:
+        b.write_output(inA, 'gs://out/inA.txt')
+        expect_ext['gs://out/inA.txt'] = tok_a
+    fc.posts.clear()
+    obs['exc_at'] = 'run'
+    with contextlib.redirect_stdout(io.StringIO()):
+        b.run(wait=False, disable_progress_bar=True, delete_scratch_on_exit=(var != 6))
+
+
 def build_and_submit(N, inp):
     """Returns the observation: templates, expectations (tokens), submitted specs or the exception raised."""
     setup()
@@ -239,125 +370,32 @@ def build_and_submit(N, inp):
     # a fresh interpreter: uid counters start where they start in a new process
     _resource.ResourceFile._counter = 0
     _resource.ResourceGroup._counter = 0
-    with warnings.catch_warnings():
-        warnings.simplefilter('ignore')
-        b = hb.Batch(backend=sb, name='c18')
-        inA = b.read_input(URL_A)
-        inB = b.read_input(URL_B)
-        url_gb = 'gs://data/h/x.a' if var == 8 else URL_GB
-        ig = b.read_input_group(a=URL_GA, b=url_gb)
-        cloud = {u: 'cloud:' + u for u in (URL_A, URL_B, URL_GA, url_gb)}
-        names = [('a b' if var == 2 else (None if var == 3 else f'j{j}')) for j in range(N)]
-        order = list(range(N - 1, -1, -1)) if var == 1 else list(range(N))
-        jobs = {}
-        for j in order:
-            jobs[j] = b.new_job(name=names[j])
-        kinds, templates, expect_ext, pairs, mentions = {}, {}, {}, [], []
-        for j in range(N):
-            job = jobs[j]
-            ok = inp.out(j)
-            kinds[j] = ok
-            rd = [inp.read(j, False), inp.read(j, True)]
-            xj = inp.ext(j)
-            obs['shape'][f'o_{j}'] = ok
-            obs['shape'][f'r_{j}'] = rd
-            obs['shape'][f'x_{j}'] = xj
-            # shapes that do not denote a pipeline (reading an output the producer does not have) are not inputs
-            for kind, i in rd:
-                if kind == 'job' and kinds[i] == 0 or kind == 'jobm' and kinds[i] not in (3, 4, 6):
-                    obs['skip'] = f'job {j} cannot read {kind} of job {i} (producer kind {kinds[i]})'
-                    return obs
-            if xj and ok == 0:
-                obs['skip'] = f'job {j} has no output to write out'
-                return obs
-            if rd[1][0] != 'none' and rd[1] == rd[0]:
-                obs['skip'] = 'second read equals the first'
-                return obs
-            pre = '--in=' if noise else ''
-            t1 = Tmpl().lit(f': job{j}')
-            for kind, i in rd:
-                if kind == 'none':
-                    continue
-                q = ''
-                if kind == 'inA':
-                    op, key, res, tail = f'R {pre}', ('in', 'A'), inA, f' {cloud[URL_A]}'
-                elif kind == 'inB':
-                    op, key, res, tail = f'R {pre}', ('in', 'B'), inB, f' {cloud[URL_B]}'
-                elif kind == 'ig':
-                    op, key, res, tail = 'RG ', ('ig',), ig, f' a={cloud[URL_GA]} b={cloud[url_gb]}'
-                elif kind == 'igm':
-                    op, key, res, tail = 'R ', ('ig', 'a'), ig.a, f' {cloud[URL_GA]}'
-                else:
-                    pj, pk = jobs[i], kinds[i]
-                    pairs.append((j, i))
-                    if kind == 'jobm':
-                        op, key, res, tail = f'R {pre}', ('out', i, 'g', 'a'), pj.g[ma], f' tok{i}.a'
-                    elif pk in (1, 2, 5):
-                        op, key, res, tail = f'R {pre}', ('out', i, 'o'), pj.o, f' tok{i}'
-                        if noise:
-                            op, q = 'R ', '"'
-                    else:
-                        op, key, res = 'RG ', ('out', i, 'g'), pj.g
-                        tail = f' {shlex.quote(ma)}=tok{i}.a {shlex.quote(mb)}=tok{i}.b'
-                t1.lit(f'\n{NOISE}\n' if noise else '; ')
-                t1.lit(op + q).ref(key, res).lit(q + tail)
-                if var == 9:
-                    # the same reference immediately followed by a digit, e.g. f'{j.ofile}0' as a sibling file name
-                    t1.lit('; : ').ref(None, res).lit('0')
-            t2 = Tmpl()
-            if ok in (1, 2, 5):
-                if ok == 2:
-                    job.o.add_extension(ext)
-                t2.lit(f'W {pre.replace("in", "out")}').ref(('out', j, 'o'), job.o).lit(f' tok{j}')
-            elif ok in (3, 4, 6):
-                job.declare_resource_group(g={ma: '{root}.' + ma, mb: '{root}.' + mb})
-                if ok == 4:
-                    t2.lit('W ').ref(('out', j, 'g', 'a'), job.g[ma]).lit(f' tok{j}.a; W ')
-                    t2.ref(('out', j, 'g', 'b'), job.g[mb]).lit(f' tok{j}.b')
-                else:
-                    t2.lit('WG ').ref(('out', j, 'g'), job.g).lit(f' {shlex.quote(ma)}=tok{j}.a {shlex.quote(mb)}=tok{j}.b')
-                if ok == 6:
-                    t2.lit('; W ').ref(('out', j, 'g.a-file'), job['g.' + ma]).lit(f' tok{j}.other')
-            templates[j] = []
-            for t in (t1, t2):
-                if t.segs:
-                    # leading/trailing white space: the backend strips commands, the oracle allows exactly that
-                    txt = ('  ' + t.text() + ' \n') if noise else t.text()
-                    try:
-                        job.command(txt)
-                    except BatchException as e:
-                        obs['exc'] = ('BatchException', str(e))
-                        obs['exc_at'] = j
-                        return obs
-                    templates[j].append(t.segs)
-                    mentions += [s[1] for s in t.segs if s[0] == 'ref']
-            if ok == 5:
-                job.o.add_extension(ext)
-            if xj:
-                if ok in (1, 2, 5):
-                    b.write_output(job.o, f'gs://out/j{j}.txt')
-                    expect_ext[f'gs://out/j{j}.txt'] = f'tok{j}'
-                else:
-                    b.write_output(job.g, f'gs://out/j{j}')
-                    expect_ext[f'gs://out/j{j}.{ma}'] = f'tok{j}.a'
-                    expect_ext[f'gs://out/j{j}.{mb}'] = f'tok{j}.b'
-        if var == 5:
-            b.write_output(inA, 'gs://out/inA.txt')
-            expect_ext['gs://out/inA.txt'] = cloud[URL_A]
-        fc.posts.clear()
-        try:
-            with contextlib.redirect_stdout(io.StringIO()):
-                b.run(wait=False, disable_progress_bar=True, delete_scratch_on_exit=(var != 6))
-        except BatchException as e:
-            obs['exc'] = ('BatchException', str(e))
-        except ValueError as e:
-            obs['exc'] = ('ValueError', str(e))
+    st = {'templates': {}, 'pairs': [], 'cloud': {}, 'expect_ext': {}}
+    del _CLIENT_UPLOADS[:]
+    try:
+        with warnings.catch_warnings():
+            warnings.simplefilter('ignore')
+            _build(N, inp, var, obs, st, sb, fc)
+    except HarnessError:
+        raise
+    except Exception as e:  # whatever the code under test raises on a pipeline is an observation, not a harness failure
+        if not shapesym.raised_inside(e, loader.REPO):
+            raise HarnessError(f'C18 builder bug: {type(e).__name__}: {e}')
+        obs['exc'] = (type(e).__name__, str(e))
+    if obs['skip']:
+        return obs
+    templates, pairs, cloud, expect_ext = st['templates'], st['pairs'], st['cloud'], st['expect_ext']
     obs['templates'] = templates
     obs['pairs'] = pairs
     obs['cloud'] = cloud
     obs['expect_ext'] = expect_ext
     obs['posts'] = list(fc.posts)
     fc.posts.clear()
+    # what the client itself uploaded before submitting (local input files)
+    for t in _CLIENT_UPLOADS:
+        cloud[t['to']] = 'local:' + t['from']
+    obs['client_uploads'] = list(_CLIENT_UPLOADS)
+    del _CLIENT_UPLOADS[:]
     return obs
 
 
@@ -515,6 +553,9 @@ def _constraints(cfg, N):
         special = z3.Or(z3.Not(base), anydef) if (defect and small) else z3.Not(base)
         for j in range(N):
             cons.append(z3.Implies(special, V(f'x_{j}') == 1))
+    if cfg.get('fix_x_all'):
+        for j in range(N):
+            cons.append(V(f'x_{j}') == 1)
     for name, val in cfg.get('fix', {}).items():
         cons.append(V(name) == val)
     return cons
